@@ -160,6 +160,30 @@ CHECKS["C08"] = dict(
 )
 
 NOT_APPLICABLE = {
+    "C06": "solver-based checking does not reach it: WriteToString/UpdateFromText run through std::ostringstream, "
+           "std::string growth and virtual stream dispatch, which do not survive into LLVM IR the translator (vf/ll2smt.py) "
+           "can execute, and modelling libstdc++ is out of proportion; the separable integer-codec clause was probed "
+           "(DecodeInteger/WriteIntegerToTextStream lower to IR, but the reachability query over the std::string paths did "
+           "not return within 20 minutes for an 8-character symbolic text), so nothing is claimed (DESIGN.md section 3 C06, section 4)",
+    "C07": "whether an emitted header is well-formed C++ under each -std is decided by a C++ front end; there is no symbolic "
+           "input and no arithmetic for a solver to range over -- the check would be running the compiler on samples, a different "
+           "technique (DESIGN.md section 4)",
+    "C11": "the formatter works on parse trees with str.format/join/ljust/rstrip over token texts and list surgery: built-ins that "
+           "concretise any symbolic string; the only solver-expressible fragment (_columnize width arithmetic) decides neither token "
+           "preservation nor idempotence (DESIGN.md section 4)",
+    "C12": "every decision of the resolver is a dictionary lookup keyed by a name string (hash() concretises a symbolic name); driven "
+           "with equality-pattern proxies the paths are exactly the set partitions of the names and the oracle a second resolver -- "
+           "enumeration, with the solver deciding nothing (DESIGN.md section 4)",
+    "C16": "the quantifier is over free text through tokenizer, a 16k-state parser, twelve IR passes and the back end; symbolic "
+           "execution of that pipeline does not terminate on inputs long enough to pass the parser, and short inputs do not reach "
+           "the passes where the risk lies; crash-freedom is an obligation inside the units of C05, C13, C14, C15 instead "
+           "(DESIGN.md section 4)",
+    "C17": "hash seed, process boundaries, repetition count and import-directory order are not values a solver can range over for "
+           "CPython; deciding it means re-running the compiler, a different technique (DESIGN.md section 4)",
+    "C18": "json.dumps/loads is C code (a stub would assume the property); the remaining to_dict/from_dict logic branches only on "
+           "set/unset flags and node kinds, so each path is one concrete shape -- enumeration, not a solver verdict; "
+           "SourceLocation.__str__/from_str needs unbounded int<->decimal-string conversion, which neither solver decides "
+           "(DESIGN.md section 4)",
 }
 
 PENDING = "not built yet (planned, see DESIGN.md section 0); not claimed until its check exists"
